@@ -11,6 +11,9 @@ TRUSTED = [
 ]
 KINDS = ['write', 'read', 'close', 'fsync', 'lseek', 'unlink', 'open', 'fchmod', 'fchown', 'futimens']
 
+def random_bytes(rng, n):
+    return rng.getrandbits(8 * n).to_bytes(n, 'little')
+
 def run(ctx):
     rng = ctx.rng
     res = coq_check('Properties_C17')
@@ -97,6 +100,42 @@ def run(ctx):
                 if not src_ok: why = 'failure reported but the source is gone'
                 elif tgt_exists and kind != 'unlink': why = 'failure reported but the incomplete target was left behind'
             if why: viol.append(dict(why='%s, fault %s #%d %s (exit %d): %s' % (label, kind, k, act, r.returncode, why), stderr=r.stderr.decode(errors='replace')[:300]))
+    # ---- several files in one run with a fault in the middle: every file on its own must end either replaced by a complete,
+    # correct target or untouched without a target - whatever happened to the file before it
+    for margs, mdec in ((['-T1'], False), (['-T1', '--no-sync'], False), (['-d'], True), (['-T2'], False)):
+        if ctx.quick() and margs == ['-T2']: continue
+        md = os.path.join(td, 'multi')
+        def mfresh():
+            shutil.rmtree(md, ignore_errors=True); os.mkdir(md); fl_ = []
+            for j in range(3):
+                # incompressible and large enough that a write happens while the 8 KiB input chunk is only partly consumed
+                pl_ = os.urandom(1) * 0 + random_bytes(rng, 260000 + 30000 * j) if j != 1 else xzgen.gen_data(rng, 60000)
+                if mdec: sp = os.path.join(md, 'm%d.xz' % j); open(sp, 'wb').write(lzma.compress(pl_, preset=0)); tp = os.path.join(md, 'm%d' % j)
+                else: sp = os.path.join(md, 'm%d' % j); open(sp, 'wb').write(pl_); tp = os.path.join(md, 'm%d.xz' % j)
+                fl_.append((sp, tp, pl_, open(sp, 'rb').read()))
+            return fl_
+        rng_state = rng.getstate(); fl_ = mfresh()
+        mlog = os.path.join(td, 'mlog')
+        if os.path.exists(mlog): os.remove(mlog)
+        r = subprocess.run([xz] + margs + [f_[0] for f_ in fl_], env=dict(os.environ, LD_PRELOAD=so, VERIF_FAULT_LOG=mlog), capture_output=True, stdin=subprocess.DEVNULL, timeout=60)
+        if r.returncode != 0: viol.append(dict(why='clean multi-file run failed: %s' % r.stderr.decode()[:200])); continue
+        mcounts = dict((l.split()[0], int(l.split()[1])) for l in open(mlog).read().split('\n') if l)
+        ks = list(range(1, mcounts.get('write', 0) + 1))
+        if ctx.quick() and len(ks) > 14: ks = sorted(rng.sample(ks, 14))
+        for k in ks:
+            for act in ('E%d' % errno.ENOSPC, 'E%d' % errno.EIO):
+                rng.setstate(rng_state); fl_ = mfresh()
+                r = subprocess.run([xz] + margs + [f_[0] for f_ in fl_], env=dict(os.environ, LD_PRELOAD=so, VERIF_FAULT='write:%d:%s' % (k, act)), capture_output=True, stdin=subprocess.DEVNULL, timeout=60)
+                n_eval += 1
+                anyfail = False
+                for sp, tp, pl_, sb in fl_:
+                    src_ok = os.path.exists(sp) and open(sp, 'rb').read() == sb
+                    tgt_ok = target_complete(tp, pl_, mdec)
+                    if src_ok and not os.path.exists(tp): anyfail = True; continue
+                    if not src_ok and tgt_ok: continue
+                    viol.append(dict(why='xz %s on three files, write #%d fails with %s: %s ends with source %s and target %s' % (' '.join(margs), k, act, os.path.basename(sp), 'intact' if src_ok else 'GONE/CHANGED', 'complete' if tgt_ok else ('present but WRONG' if os.path.exists(tp) else 'absent')), stderr=r.stderr.decode(errors='replace')[:300])); break
+                if anyfail and r.returncode == 0: viol.append(dict(why='xz %s on three files, write #%d %s: a file was not processed but the exit status is 0' % (' '.join(margs), k, act), stderr=''))
+                distinct.add(('multi', tuple(margs), act, r.returncode))
     # ---- invalid input (no fault injected): the invalid source stays, no target appears for it, exit status non-zero;
     # valid files named in the same run are still replaced.  Every order and format mix: nothing may leak between files.
     from props.c16 import lz_member
